@@ -65,6 +65,11 @@ def _mesh():
     return st.one_of(gen.mesh_uniform(2, 8), gen.mesh_faces(2, 8, maxratio=4.0))
 
 
+def _unit():
+    """length (hence time) unit: nanometres to kilometres; the start time is expressed in the same unit"""
+    return st.one_of(st.just(1.0), st.just(1.0), gen.logf(-9, 3))
+
+
 def _num():
     return st.sampled_from([dict(name="extrapol1"), dict(name="extrapol2"), dict(name="extrapol3"), dict(name="muscl", limiter="minmod")])
 
@@ -72,8 +77,8 @@ def _num():
 # ---------------------------------------------------------------- single step
 def strat_step(tier):
     ex, im = cases.integrator_names()
-    return st.builds(lambda pr, me, num, integ, t0, cfl, loc: dict(_pr(pr, integ), mesh=me, num=num, t0=t0, cfl=cfl, local=loc),
-                     _problem(), _mesh(), _num(), st.sampled_from(ex + im), st.one_of(st.just(0.0), gen.sfloat(-2, 3)), gen.logf(-2, 0), st.booleans())
+    return st.builds(lambda pr, me, num, integ, t0, cfl, loc, u: dict(_pr(pr, integ), mesh=cases.scale_mesh(me, u), num=num, t0=t0 * u, cfl=cfl, local=loc, unit=u),
+                     _problem(), _mesh(), _num(), st.sampled_from(ex + im), st.one_of(st.just(0.0), gen.sfloat(-2, 3)), gen.logf(-2, 0), st.booleans(), _unit())
 
 
 def check_step(case):
@@ -115,10 +120,10 @@ def _stop():
 
 def strat_hist(tier):
     ex, im = cases.integrator_names()
-    return st.builds(lambda pr, me, num, integ, t0, cfl, ts, stp, dtl, rst, ts2, stp2, reuse: dict(
-        _pr(pr, integ), mesh=me, num=num, t0=t0, cfl=cfl, tsave=ts, stop=stp, dtlocal=dtl, restart=rst, tsave2=ts2, stop2=stp2, reuse=reuse),
+    return st.builds(lambda pr, me, num, integ, t0, cfl, ts, stp, dtl, rst, ts2, stp2, reuse, u: dict(
+        _pr(pr, integ), mesh=cases.scale_mesh(me, u), num=num, t0=t0 * u, cfl=cfl, tsave=ts, stop=stp, dtlocal=dtl, restart=rst, tsave2=ts2, stop2=stp2, reuse=reuse, unit=u),
         _problem(), _mesh(), _num(), st.sampled_from(ex + im), st.one_of(st.just(0.0), gen.sfloat(-1, 2)), gen.f(0.05, 0.9), _rel_times(), _stop(), st.booleans(), st.booleans(), _rel_times(), _stop(),
-        st.sampled_from(["none", "none", "stop", "tsave", "both"]))
+        st.sampled_from(["none", "none", "stop", "tsave", "both"]), _unit())
 
 
 class Trajectory(object):
